@@ -35,6 +35,8 @@ DupRet(c) == {r \in Idx(c.ret) : \E q \in 1..(r-1) : c.ret[q] = c.ret[r]}
 \* soundness direction: a returned vector that no candidate matches is not a violation of C01/C02
 \* (the mapper may know mappings the constructive mapspace does not), it is only reported
 Unmatched(c) == {r \in Idx(c.ret) : ~ \E k \in Idx(c.cands) : c.cands[k] = c.ret[r]}
+\* returned vectors that are on the returned set's own front but equal no candidate
+UnmatchedND(c) == {r \in Unmatched(c) : r \notin DominatedRet(c)}
 \* returned vector strictly better than every candidate in some coordinate and not dominated:
 BetterThanAll(c) == {r \in Idx(c.ret) : \A k \in Idx(c.cands) : ~ WeaklyDominates(AllMin(Dim(c)), c.cands[k], c.ret[r])}
 
@@ -49,6 +51,7 @@ Verdict(c) ==
    dominated |-> FirstOr0(DominatedRet(c)),
    duplicate |-> FirstOr0(DupRet(c)),
    unmatched |-> Cardinality(Unmatched(c)),
+   unmatched_nd |-> FirstOr0(UnmatchedND(c)),
    better |-> Cardinality(BetterThanAll(c))]
 
 Emit == i <= Len(Cases) => PrintT(ToJson(Verdict(Cases[i])))
